@@ -3,15 +3,59 @@ package main
 import (
 	"context"
 	"encoding/hex"
+	"fmt"
+	"strings"
 
 	"github.com/pulumi/esc/eval"
 )
 
 func init() { register("C12", c12) }
 
+// the one diagnostic the known finding C12-interp is about (ast/expr.go parseSecret); it is only ever mapped to a
+// class ("secret" / "other"), the text itself never reaches the model
+const c12SecretLiteralDiag = "secret values must be string literals"
+
+// c12NewDiagsSplit: the diagnostics of `out` not matched (as a multiset) by diagnostics of `in`, split into the
+// class of C12-interp and everything else.
+func c12NewDiagsSplit(in, out []string) (secret, other int) {
+	have := map[string]int{}
+	for _, d := range in {
+		have[d]++
+	}
+	for _, d := range out {
+		if have[d] > 0 {
+			have[d]--
+		} else if strings.HasSuffix(d, ":"+c12SecretLiteralDiag) {
+			secret++
+		} else {
+			other++
+		}
+	}
+	return
+}
+
+// c12Rewrite runs the real rewrite under its own recover(), so that a run-time panic of EncryptSecrets /
+// DecryptSecrets is an observation of the case (the input tree stays available), not a lost case.
+func c12Rewrite(op string, src []byte, ciph cyToyCipher) (out []byte, err error, panicked string) {
+	defer func() {
+		if r := recover(); r != nil {
+			panicked = fmt.Sprint(r)
+		}
+	}()
+	switch op {
+	case "enc":
+		out, err = eval.EncryptSecrets(context.Background(), "doc", src, ciph)
+	case "dec":
+		out, err = eval.DecryptSecrets(context.Background(), "doc", src, ciph)
+	}
+	return
+}
+
 // C12: run the real eval.EncryptSecrets / eval.DecryptSecrets on a YAML text and report the yaml.v3 node tree of
-// the input and of the output, whether the output loads (eval.LoadYAMLBytes) without new diagnostics, and the
-// output text.
+// the input and of the output, the number of load diagnostics of the input (eval.LoadYAMLBytes), whether the output
+// loads without new diagnostics, and the output text.
+// op "tree": only the yaml.v3 node tree and the load diagnostics of the text (used by the driver side to describe a
+// case whose rewrite killed the process).
 func c12(c map[string]any) map[string]any {
 	src, _ := hex.DecodeString(str(c, "src"))
 	ciph := cyToyCipher{key: byte(cyNum(c, "key")), pad: cyNum(c, "pad")}
@@ -22,15 +66,21 @@ func c12(c map[string]any) map[string]any {
 		return res
 	}
 	res["in"] = in
-	var out []byte
-	var err error
-	switch str(c, "op") {
-	case "enc":
-		out, err = eval.EncryptSecrets(context.Background(), "doc", src, ciph)
-	case "dec":
-		out, err = eval.DecryptSecrets(context.Background(), "doc", src, ciph)
-	default:
+	din, _, _ := cyLoadDiags(src)
+	res["in_diags"] = len(din)
+	op := str(c, "op")
+	if op == "tree" {
+		res["res"] = "tree"
+		return res
+	}
+	if op != "enc" && op != "dec" {
 		res["res"] = "badop"
+		return res
+	}
+	out, err, panicked := c12Rewrite(op, src, ciph)
+	if panicked != "" {
+		res["res"] = "panic"
+		res["panic_in_rewrite"] = panicked
 		return res
 	}
 	res["res"] = cyErrClass(err)
@@ -44,9 +94,10 @@ func c12(c map[string]any) map[string]any {
 		return res
 	}
 	res["out"] = ot
-	din, _, _ := cyLoadDiags(src)
 	dout, _, _ := cyLoadDiags(out)
-	res["new_diags"] = cyNewDiags(din, dout)
-	res["in_diags"] = len(din)
+	ns, no := c12NewDiagsSplit(din, dout)
+	res["new_diags"] = ns + no
+	res["new_secret_diags"] = ns
+	res["new_other_diags"] = no
 	return res
 }
